@@ -4,6 +4,7 @@ pub mod analysis;
 pub mod dbg;
 pub mod ll;
 pub mod lr;
+pub mod robust;
 pub mod transform;
 
 pub fn run(id: &str, tier: Tier, replay: Option<&str>) -> i32 {
@@ -11,6 +12,7 @@ pub fn run(id: &str, tier: Tier, replay: Option<&str>) -> i32 {
         "C01" | "C02" => ll::run(id, tier, replay),
         "C09" | "C10" | "C11" | "C12" => transform::run(id, tier, replay),
         "C03" | "C04" => lr::run(id, tier, replay),
+        "C19" | "C20" => robust::run(id, tier, replay),
         "C05" | "C06" | "C07" | "C08" => analysis::run(id, tier, replay),
         "dbg" => dbg::run(&std::env::args().skip(2).collect::<Vec<_>>()),
         "spaces" => {
